@@ -11,7 +11,7 @@
 (* whose components are names, Dot or DotDot - exactly what                *)
 (* std::path::Path::components() yields after the root.                    *)
 (***************************************************************************)
-EXTENDS Naturals, Sequences, TLC
+EXTENDS Naturals, Sequences, SequencesExt, TLC
 
 Dot    == <<".">>
 DotDot == <<".", ".">>
@@ -21,8 +21,6 @@ JsExt  == <<".", "j", "s">>
 
 P(abs, cs) == [abs |-> abs, cs |-> cs]
 
-Front(s) == SubSeq(s, 1, Len(s) - 1)
-Last(s)  == s[Len(s)]
 
 EndsWith(s, suf) == Len(s) >= Len(suf) /\ SubSeq(s, Len(s) - Len(suf) + 1, Len(s)) = suf
 StartsWith(s, pre) == Len(s) >= Len(pre) /\ SubSeq(s, 1, Len(pre)) = pre
@@ -151,12 +149,12 @@ SplitOn(s, sep, cur) ==
 
 Segments(spec) == SplitOn(spec, Slash, <<>>)
 
-Contains(s, ch) == \E i \in DOMAIN s : s[i] = ch
+HasChar(s, ch) == \E i \in DOMAIN s : s[i] = ch
 
 \* relative specifier: starts with "./" or "../", forward slashes only, no empty segment
 WellFormedSpec(spec) ==
   /\ (StartsWith(spec, <<".", Slash>>) \/ StartsWith(spec, <<".", ".", Slash>>))
-  /\ ~Contains(spec, "\\")
+  /\ ~HasChar(spec, "\\")
   /\ \A i \in DOMAIN Segments(spec) : Segments(spec)[i] # <<>>
 
 \* TypeScript resolution of `import .. from "<spec>"` in a file living in directory dir:
